@@ -69,6 +69,16 @@ def _apply_rewrites(txt, rewrites, ledger, where):
                        after="(rule applied to the matches found)", why="code shape differs from the one the rule was written for")
         if not matches:
             continue
+        if rw.get("nth") is not None:
+            # the rule applies to one occurrence only (counted from 0; negative: from the end)
+            k = rw["nth"]
+            if not (-len(matches) <= k < len(matches)):
+                ledger.add(where=where, rule=rw.get("rule", "?"), before="(occurrence %d of %d)" % (k, len(matches)), after="(absent)", why="code shape differs from the one the rule was written for")
+                continue
+            m = matches[k]
+            ledger.add(where=where, rule=rw.get("rule", "?"), before=m.group(0)[:200], after=m.expand(rw["to"])[:200], why=rw.get("why", ""))
+            txt = txt[:m.start()] + m.expand(rw["to"]) + txt[m.end():]
+            continue
         for m in matches:
             ledger.add(where=where, rule=rw.get("rule", "?"), before=m.group(0)[:200],
                        after=m.expand(rw["to"])[:200] if isinstance(rw["to"], str) else "<fn>",
